@@ -29,6 +29,10 @@ type Stepper struct {
 	blk      chain.Block
 	batch    *txindex.Batch
 	idx      int
+	// TolerateIndexErr: record a failing TransactionIndexer.AddBatch in IndexErr instead of panicking
+	// (Tendermint's indexer service only logs such an error).
+	TolerateIndexErr bool
+	IndexErr         error
 }
 
 func NewStepper(n *chain.Node) *Stepper { return &Stepper{N: n} }
@@ -86,7 +90,10 @@ func (s *Stepper) Commit() []byte {
 	n := s.N
 	c := n.App.Commit()
 	if err := n.Indexer.AddBatch(s.batch); err != nil {
-		panic(fmt.Sprintf("tx indexer AddBatch at height %d: %v", s.h, err))
+		if !s.TolerateIndexErr {
+			panic(fmt.Sprintf("tx indexer AddBatch at height %d: %v", s.h, err))
+		}
+		s.IndexErr = err
 	}
 	n.Height, n.LastBlockID, n.AppHash, n.Time = s.h, s.bid, c.Data, s.blk.Time.UTC()
 	return c.Data
